@@ -136,7 +136,13 @@ Section Termini.
     match l with
     | [] => false
     | t0 :: _ =>
-        match get_atom "N" (t_r t0), get_atom "C" (t_r (List.last l t0)) with
+        (* since /repo 892120d: the closure is tested between the first residue
+           that has an N and the last one that has a C (waters / ligands listed
+           under the chain's ID are not part of the ring); defaults = first / last *)
+        let ring0 := match find (fun t => has_atom "N" (t_r t)) l with Some t => t | None => t0 end in
+        let ringlast := match find (fun t => has_atom "C" (t_r t)) (rev l) with
+                        | Some t => t | None => List.last l t0 end in
+        match get_atom "N" (t_r ring0), get_atom "C" (t_r ringlast) with
         | Some n, Some c => near n c
         | _, _ => false
         end
